@@ -416,6 +416,10 @@ func muxOracle(r *rand.Rand, n int, tier string, infile string) (cases int, fail
 			trySwarm(op[1], inner, op[3])
 		}
 	}
+	if f := muxLateReaderCase(r); f != "" {
+		fails = append(fails, f)
+	}
+	cases++
 	for i := 0; i < n; i++ {
 		k := muxKinds[r.Intn(len(muxKinds))]
 		c := randChan(r, k)
@@ -427,4 +431,50 @@ func muxOracle(r *rand.Rand, n int, tier string, infile string) (cases int, fail
 		}
 	}
 	return cases, fails
+}
+
+// muxLateReaderCase: a message is told on channel 1 while nobody reads that channel; meanwhile traffic flows on
+// channel 2 (the transport underneath recycles its few receive buffers); then channel 1 is read. What arrives there
+// must be what was told there (C15: channels are isolated; C14: the payload handed to a callback is not rewritten).
+func muxLateReaderCase(r *rand.Rand) string {
+	realm := memswarm.NewRealm(memswarm.WithQueueLen(hx.Pick(r, 1, 2, 4)))
+	sx, sy := realm.NewSwarm(), realm.NewSwarm()
+	mx, my := p2pmux.NewUint16Mux[memswarm.Addr](sx), p2pmux.NewUint16Mux[memswarm.Addr](sy)
+	x1, x2 := mx.Open(1), mx.Open(2)
+	y1, y2 := my.Open(1), my.Open(2)
+	defer sx.Close()
+	defer sy.Close()
+	ctx, cf := context.WithTimeout(context.Background(), 5*time.Second)
+	defer cf()
+	dst := x1.LocalAddrs()[0]
+	want := "channel-one-payload-" + strconv.Itoa(r.Intn(1000))
+	if err := y1.Tell(ctx, dst, p2p.IOVec{[]byte(want)}); err != nil {
+		return ""
+	}
+	got2 := 0
+	done := make(chan struct{})
+	go func() {
+		defer close(done)
+		for got2 < 24 {
+			rctx, rcf := context.WithTimeout(ctx, 300*time.Millisecond)
+			err := x2.Receive(rctx, func(m p2p.Message[memswarm.Addr]) { got2++ })
+			rcf()
+			if err != nil {
+				return
+			}
+		}
+	}()
+	for i := 0; i < 32; i++ {
+		y2.Tell(ctx, dst, p2p.IOVec{[]byte(fmt.Sprintf("channel-two-msg-%03d-padding", i))})
+		time.Sleep(200 * time.Microsecond)
+	}
+	<-done
+	got := ""
+	rctx, rcf := context.WithTimeout(ctx, time.Second)
+	err := x1.Receive(rctx, func(m p2p.Message[memswarm.Addr]) { got = string(m.Payload) })
+	rcf()
+	if err == nil && got != want {
+		return fmt.Sprintf("a message told on channel 1 (%q) while nobody was reading it arrives on channel 1 as %q after traffic on channel 2: the payload was rewritten while it waited", want, got)
+	}
+	return ""
 }
